@@ -4,20 +4,29 @@ V = os.path.dirname(os.path.dirname(os.path.abspath(__file__)))
 props = [json.loads(l)["id"] for l in open(os.path.join(V, "properties.jsonl"))]
 CHECKS = {
  "C01": dict(
-   text="PARTIAL.  Proved (Props/C01.v; Scope/SpecProofs*.v): for the six brace languages, GIVEN that the matcher returns "
-        "exactly the headers of a well-formed family of function descriptors over the code tokens, the rest of the pipeline — "
-        "the stack-based brace matcher (= Dyck matching, `C01_blocks_are_dyck`), reverse-order pairing with block deletion "
-        "(`C01_pairing`: every header gets its own body whatever brace groups lie in its parameters, inside or around it), "
-        "the nesting fold and the distinct-line count — reports exactly one measurement per descriptor, in source order, with "
-        "its name, the span from the header's first token to just past the closing brace, and length = distinct lines of its "
-        "own tokens excluding nested functions; C (no nesting) likewise.  NOT proved: that on every program of the canonical "
-        "grammar the captured header patterns match exactly at the function headers, and the Python indentation family — both "
-        "are checked on 4 200 generated programs per quick run (all quantifier features: nesting in any position, multi-line "
-        "headers, both brace styles, brace groups and calls in parameters, async, strings with delimiters, comments, bodies "
-        "around 15/30/60) against expectations computed from the rendering, and the Coq model is run on the same token streams.",
-   note="Partial (header recognition and Python are exploration-level).  Trusted: Coq kernel; scope model (tie H); generator "
-        "harness/progen.py and its piece-ownership expectation; C14/C15/C03/C05 bound the matcher on arbitrary streams.",
-   technique="Rocq proof of the pipeline given the headers (Dyck matching, pairing invariant, fold, counting) + typed program generator with computed expectations",
+   text="PARTIAL (one step short).  Proved in Coq for all seven languages (Props/C01.v: C01_brace, C01_flat, C01_python; proofs "
+        "Scope/SpecProofs*.v, HeaderProofs*.v, ShapeProofs*.v, PySpecProofs*.v): IF a code-token stream carries a well-formed "
+        "family of function descriptors (wf_descs: Dyck-matched body braces; py_wf_descs: the suite is the maximal run of "
+        "following lines indented deeper than the header's first token; descriptors sorted and nested-or-disjoint) AND the "
+        "documented header shape occurs exactly at the descriptors' headers (lexically_canonical_of: a decidable, purely "
+        "lexical condition, e.g. 'identifier, balanced parenthesis groups, then {'), THEN scan_file reports exactly one "
+        "measurement per descriptor, in source order, with its name, the span from the header's first token to just past the "
+        "body's last token, and length = distinct lines of its own tokens (nested functions excluded).  Header recognition is "
+        "proved, not assumed: C01_headers_lexical shows for every token stream that the matcher run on the captured patterns "
+        "(tied to the live pattern objects by reflexivity) returns exactly the lexically specified headers (leftmost, "
+        "non-overlapping, follow-up tests for `{`, `throws ...{`, `: type {`).  Brace matching = Dyck matching "
+        "(C01_blocks_are_dyck), pairing (C01_pairing), Python block extraction (C01_python_blocks).  The two hypotheses have "
+        "boolean checkers proved sound; the harness decides them INSIDE Coq on 280 generated programs per quick run and "
+        "compares the theorem's right-hand side with the generator's expectation.  NOT proved: that every program of the "
+        "informally described canonical grammar satisfies the two hypotheses (the grammar is not formalised); C01_python "
+        "excludes backslash continuations.  4 200 generated programs per quick run (nesting in any position, multi-line "
+        "headers, both brace styles, brace groups and calls in parameters, async, long throws / return types, strings with "
+        "delimiters, marker-like comments, bodies around 15/30/60) are judged against expectations computed from the rendering, "
+        "and the Coq model runs on the same token streams.",
+   note="Partial: the canonical grammar is informal, so 'every canonical program satisfies the theorem's lexical hypotheses' is "
+        "validated (decided in Coq per generated program), not proved.  Trusted: Coq kernel; scope model (tie H), captured "
+        "patterns (tie K); generator harness/progen.py and its piece-ownership expectation.",
+   technique="Rocq end-to-end theorem (header recognition via the concrete DFAs, Dyck matching, pairing invariant, fold, counting; Python suites) under decidable lexical hypotheses checked in Coq per generated program + typed program generator with computed expectations",
    ref="DESIGN.md sections 5 and 9, C01"),
 
  "C12": dict(
@@ -180,8 +189,11 @@ CHECKS = {
         "contract, each kept token's line is 1 + the number of line breaks before it, its column counts from the line start, "
         "location_to_index of the reported position is the token's offset and the text there is the token's text; kept tokens "
         "are strictly increasing and non-overlapping; white space is never kept, comments exactly when requested; the "
-        "single-line fast path is only an optimisation.  Tie: stub lexer over every text of length<=5 x every segmentation "
-        "(37k model evaluations per quick run) and the seven real lexers.",
+        "single-line fast path is only an optimisation.  The same theorems hold for lex() as the implementation runs it "
+        "since GD24 (`lex_file`: the lexer is called on the text with a final line break ensured, the padding is dropped from "
+        "the tokens again — `C16_padding_dropped` shows the result is a lexing of the original text that loses nothing but "
+        "the padding; proofs Tok/LexPadProofs.v).  Tie: stub lexer over every text of length<=5 x every segmentation with "
+        "every member of the Comment family (45k model evaluations per quick run) and the seven real lexers.",
    note="Trusted: Coq kernel; model Tok/Lex.v (tie H); Pygments contract is an oracle asserted on every text lexed.",
    technique="Rocq proof (incremental newline scan = from-scratch count, split_lines arithmetic) + exhaustive stub-lexer correspondence",
    ref="DESIGN.md section 5, C16"),
